@@ -1,6 +1,6 @@
 """C09 Stopping is safe at every instant."""
 import os, json
-import vlib, games, searches
+import vlib, games, searches, nodes
 
 
 def main():
@@ -69,6 +69,16 @@ def main():
                           replay={"kind": "search-event", "events": d["_file"], "line": d.get("at")})
     if total_k == 0:
         raise vlib.ToolError("no stop index exercised")
+    # node level (hook H6, Trace_Nodes.tla): every step of every node of recorded searches replayed on a stack of
+    # rule-book positions; this check reports the clauses filed under its own property
+    stop_fens = ["r1bqkbnr/pppp1ppp/2n5/4p3/4P3/5N2/PPPP1PPP/RNBQKB1R w KQkq - 2 3", "8/2p5/3p4/KP5r/1R3p1k/8/4P1P1/8 w - - 0 1",
+                 "r3k2r/p1ppqpb1/bn2pnp1/3PN3/1p2P3/2N2Q1p/PPPBBPPP/R3K2R w KQkq - 0 1", "2kr3r/pp1q1ppp/5n2/1Nb5/2Pp1B2/7Q/P4PPP/1R3RK1 w - - 0 1"]
+    from fen2json import fen2pos
+    # the stop request is observed at the last / last but one / ... poll of a search that is long enough to poll inside the tree
+    stops = [(fen2pos(f), 1, k) for f in (stop_fens[:2] if q else stop_fens) for k in ((-1,) if q else (-1, -2, -3))]
+    nstat = nodes.standard(chk, ("C09",), scale=0.5, stops=stops)
+    if nstat["aborted_inside_tree"] == 0:
+        raise vlib.ToolError("no recorded search was stopped inside the tree: %s" % nstat)
     chk.cov.update({
         "states": mc.distinct, "transitions": mc.states, "traces_validated_against_impl": len(all_files),
         "evaluations": stats["searches"], "distinct_nontrivial": total_k,
